@@ -1,0 +1,24 @@
+//go:build verif
+
+package pool
+
+// Contracts for the deductive checker in /verif (comment-only file, no declarations).
+//
+// bytespool is a dependency: these two contracts are assumptions about it
+// (size classes, no zeroing, distinctness of live buffers).
+
+//@ func GetBuf(size int) (b Buffer)
+//@   trusted
+//@   requires [C01:nonneg] 0 <= size
+//@   modifies nothing
+//@   ensures len(b) == size && cap(b) >= size && fresh(b)
+
+//@ func ReleaseBuf(b Buffer)
+//@   trusted
+//@   requires [C01,C20:nonnil] b != nil
+//@   modifies nothing
+
+//@ func CopyBuf(b []byte) (bb Buffer)
+//@   props C01 C20
+//@   modifies nothing
+//@   ensures len(bb) == len(b) && fresh(bb) && bytesEq(bb, 0, b, 0, len(b))
